@@ -25,47 +25,50 @@ Print Assumptions C10_no_panic.
 
 (** One call from any state that satisfies the invariant: it completes, keeps the
     invariant, never shrinks the data written, and if it returns [Err] the state
-    and the logical stream are unchanged ([st_idx_typed]: see the refutation below). *)
+    and the logical stream are unchanged. *)
 Theorem C10_step : forall (gen_xml : file_meta -> res (list N)) (lib_version : xstring),
   (forall m, gen_xml m <> Panic) ->
   forall st l c, ws_inv st l -> call_wf c ->
   exists l' st' r, wrun_spec (wapi_step gen_xml lib_version st c) l = (l', Ok (st', r)) /\
     ws_inv st' l' /\ ls_le l l' /\
-    (forall k, r = CrErr k -> st_idx_typed st -> st' = st /\ l' = l).
+    (forall k, r = CrErr k -> st' = st /\ l' = l).
 Proof. exact wapi_step_ok. Qed.
 Print Assumptions C10_step.
 
-(** A call returns Ok only if it is representable under the documented rules
-    (Proofs/WapiRules.v: [representable_prototype], [representable_point], ...). *)
+(** A call that is not rejected is representable under the documented rules
+    (Proofs/WapiRules.v: [representable_prototype] - including: no attribute twice,
+    no empty integer range -, [representable_point]; Proofs/WapiMain.v:
+    [representable_call] - including: nothing is added and nothing is finalized
+    a second time after a finalize). *)
 Theorem C10_rejects : forall (gen_xml : file_meta -> res (list N)) (lib_version : xstring),
-  forall st l c l' st', ws_inv st l -> ws_open st = true -> call_wf c ->
-  wrun_spec (wapi_step gen_xml lib_version st c) l = (l', Ok (st', CrOk)) -> representable_call st c.
+  forall st l c l' st' r, ws_inv st l -> ws_open st = true -> call_wf c ->
+  wrun_spec (wapi_step gen_xml lib_version st c) l = (l', Ok (st', r)) ->
+  (forall k, r <> CrErr k) -> r <> CrNoCompile -> representable_call st c.
 Proof. exact accepted_is_representable. Qed.
 Print Assumptions C10_rejects.
 
 (** A call that returns [Err] leaves the writer state (bounds included) and the
-    bytes emitted unchanged. *)
+    bytes emitted unchanged - unconditionally since duplicate attribute names are
+    rejected (repair 8f31314; before it the statement was refuted by a prototype with
+    two RowIndex records, see the remark at [err_is_noop] in Proofs/WapiMain.v). *)
 Theorem C10_err_is_noop : forall (gen_xml : file_meta -> res (list N)) (lib_version : xstring),
   (forall m, gen_xml m <> Panic) ->
-  forall st l c l' st' k, ws_inv st l -> call_wf c -> st_idx_typed st ->
+  forall st l c l' st' k, ws_inv st l -> call_wf c ->
   wrun_spec (wapi_step gen_xml lib_version st c) l = (l', Ok (st', CrErr k)) -> st' = st /\ l' = l.
 Proof. exact err_is_noop. Qed.
 Print Assumptions C10_err_is_noop.
 
-(** Without [st_idx_typed] it is false: two RowIndex records, the second not an
-    integer; [add_point] fails after the Cartesian bounds were updated. *)
-Theorem C10_err_is_noop_refuted : forall (gen_xml : file_meta -> res (list N)) (lib_version : xstring),
-  exists st l st' l',
-    wrun_spec (wapi_run gen_xml lib_version ws_init [NewWriter [103]; AddPointcloud [112] refuted_proto]) ls_init
-      = (l, Ok (st, [CrOk; CrOk])) /\
-    wrun_spec (wapi_step gen_xml lib_version st (PcAddPoint refuted_point)) l = (l', Ok (st', CrErr EInternal)) /\
-    x_bound_set st = false /\ x_bound_set st' = true.
-Proof. exact err_is_noop_refuted. Qed.
-Print Assumptions C10_err_is_noop_refuted.
+(** The former counterexample is now rejected by [add_pointcloud]. *)
+Theorem C10_former_witness_rejected : forall (gen_xml : file_meta -> res (list N)) (lib_version : xstring),
+  exists l st, wrun_spec (wapi_run gen_xml lib_version ws_init [NewWriter [103]; AddPointcloud [112] former_witness_proto]) ls_init
+               = (l, Ok (st, [CrOk; CrErr EInvalid])) /\ ws_sub st = SubNone.
+Proof. exact former_witness_rejected. Qed.
+Print Assumptions C10_former_witness_rejected.
 
 (** The drain loop of [PointCloudWriter::finalize] never exhausts its fuel:
-    with the fuel [|buffer| + 1] it returns Ok with an empty buffer. *)
-Theorem C10_finalize_terminates : forall ps l, pc_inv ps l -> ls_ok l ->
+    with the fuel [|buffer| + 1] it returns Ok with an empty buffer (a finalized
+    writer does not enter the loop: [finalize] is refused). *)
+Theorem C10_finalize_terminates : forall ps l, pc_inv ps l -> ls_ok l -> ps_finalized ps = false ->
   exists w1, snd (wrun_spec (drain_buffer (S (length (w_buffer (ps_w ps)))) (ps_w ps)) l) = Ok w1 /\
              w_buffer w1 = [].
 Proof. exact finalize_terminates. Qed.
